@@ -690,6 +690,8 @@ def gen_boundary(rng):
             p['U'] = 0
         elif t == 'lower=upper':
             p['lo'] = p['U'] / UNIT
+            if not float(p['pw']).is_integer():
+                p['pw'] = 1
             if p['a'] == 0.0 and rng.random() < 0.7:
                 p['a'] = rng.choice([0.5, 1.0, 2.5])
                 p['pw'] = rng.choice([1, 2, 3])
@@ -766,6 +768,8 @@ def evaluate(cid, spec, stream, real=None):
                         near += 1
         if 0 not in ktab:
             ktab[0] = k_expected(p, 0)
+            if ktab[0] != ktab[0]:
+                del ktab[0]            # no selected pair at distance 0: the entry would not be used
     if near:
         chk.count('excluded_near_minimum_force')
         return None
@@ -1115,7 +1119,8 @@ def one_application(proc, cfg, rng, j, errs):
                     ktab[d2] = k_expected(p, d2)
                     if ktab[d2] != ktab[d2] or near_thr(ktab[d2], p['minf']):
                         skip = True
-        ktab.setdefault(0, k_expected(p, 0))
+        if 0 not in ktab and k_expected(p, 0) == k_expected(p, 0):
+            ktab[0] = k_expected(p, 0)
     ktab_fn = (lambda d2, p=p: p['base']) if exact else (lambda d2, ktab=ktab, p=p: ktab[d2] if d2 in ktab else k_expected(p, d2))
     exc, rubber, warns = apply_proc(proc, spec)
     fresh, _ = make_processor(cfg)
